@@ -351,6 +351,217 @@ def attribute_probe_rule(repo, rep, prims):
                     walk_expr(e0, failed)
 
 
+def type_tags_from_name(repo, rep, prims):
+    """R4.13: the type tag of a child (contentType, "...type" keys, factory look-ups) is its `name` - the factory name, which the
+    specialised subclasses (HistogramMethods, ...) keep as "Bin", ... - never the Python class name: specialize() re-classes the
+    object, so `x.__class__.__name__` of a constructed child differs from the tag the document (and a reloaded tree) carries."""
+    r13 = rep.rule("R4.13", "type tags (contentType, *:type keys) are taken from `.name`, never from the Python class name", floor=15)
+
+    def is_classname(e):
+        if isinstance(e, ast.Attribute) and e.attr in ("__name__", "__qualname__"):
+            v = e.value
+            if isinstance(v, ast.Attribute) and v.attr == "__class__":
+                return True
+            if isinstance(v, ast.Call) and isinstance(v.func, ast.Name) and v.func.id == "type" and len(v.args) == 1:
+                return True
+        return False
+
+    for c in prims:
+        for f in c.methods.values():
+            tainted = {}
+            for n in walk_local_stmt(f.node):
+                if isinstance(n, ast.Assign) and len(n.targets) == 1 and isinstance(n.targets[0], ast.Name) and any(is_classname(x) for x in ast.walk(n.value)):
+                    tainted[n.targets[0].id] = n
+
+            def bad_in(e):
+                for x in ast.walk(e):
+                    if is_classname(x):
+                        return x
+                    if isinstance(x, ast.Name) and isinstance(x.ctx, ast.Load) and x.id in tainted:
+                        return tainted[x.id]
+                return None
+
+            for n in walk_local_stmt(f.node):
+                sinks = []
+                if isinstance(n, ast.Assign):
+                    for t in n.targets:
+                        if (isinstance(t, ast.Attribute) and t.attr == "contentType") or (isinstance(t, ast.Name) and t.id == "contentType"):
+                            sinks.append(("contentType", n.value))
+                        if isinstance(t, ast.Subscript) and isinstance(t.slice, ast.Constant) and isinstance(t.slice.value, str) and t.slice.value.endswith("type"):
+                            sinks.append((t.slice.value, n.value))
+                if isinstance(n, ast.Dict):
+                    for k, v in zip(n.keys, n.values):
+                        if isinstance(k, ast.Constant) and isinstance(k.value, str) and k.value.endswith("type"):
+                            sinks.append((k.value, v))
+                if isinstance(n, ast.Compare) and any(isinstance(x, ast.Attribute) and x.attr in ("contentType",) for x in ast.walk(n)):
+                    sinks.append(("comparison with contentType", n))
+                for what, e in sinks:
+                    b = bad_in(e)
+                    r13.ob(b is None, f"{f.qualname}: {what} <- {ast.unparse(e)[:60]}")
+                    if b is not None:
+                        rep.finding("R4.13", f, b, f"the type tag `{what}` is taken from the Python class name (`{ast.unparse(b)[:60]}`): specialize() re-classes "
+                                    f"constructed aggregators (a Bin of Counts is a HistogramMethods), so the tag differs from the `name` the JSON document carries - "
+                                    f"original and reloaded container declare different content types and can no longer be merged", stmt=f"{what} from the class name")
+
+
+def name_from_parent_used(repo, rep, prims):
+    """R4.14: a container factors the common quantity name of its children out as `values:name` / `bins:name` / `sub:name` and hands
+    it to each child reader as nameFromParent; a reader that stores its quantity name must take nameFromParent when the fragment has none."""
+    r14 = rep.rule("R4.14", "every reader that restores a quantity name falls back to nameFromParent", floor=12)
+    for c in prims:
+        f = repo.own_method(c, "fromJsonFragment")
+        if len(f.params) < 2:
+            raise AnalysisError(f"{f.construct}: unexpected signature")
+        nfp = f.params[-1]
+        stores = [n for n in walk_local_stmt(f.node) if isinstance(n, ast.Assign) and any(
+            isinstance(t, ast.Attribute) and t.attr == "name" and isinstance(t.value, ast.Attribute) and t.value.attr in USERFCN_FIELDS for t in n.targets)]
+        if not stores:
+            continue
+        carriers = {nfp}
+        changed = True
+        while changed:
+            changed = False
+            for n in walk_local_stmt(f.node):
+                if isinstance(n, ast.Assign) and any(isinstance(x, ast.Name) and x.id in carriers for x in ast.walk(n.value)):
+                    for t in n.targets:
+                        if isinstance(t, ast.Name) and t.id not in carriers:
+                            carriers.add(t.id)
+                            changed = True
+        ok = any(isinstance(x, ast.Name) and x.id in carriers for n in stores for x in ast.walk(n.value))
+        r14.ob(ok, f"{c.name}.fromJsonFragment: quantity name <- {nfp} when the fragment has no name")
+        if not ok:
+            rep.finding("R4.14", f, stores[0], f"{c.name}.fromJsonFragment restores the quantity name (`{norm(stores[0])[:60]}`) but never from `{nfp}`: nested under a "
+                        f"container that factors the name out (values:name / bins:name / sub:name) the reloaded child is unnamed, and the re-serialised "
+                        f"document loses the key", stmt=f"quantity name never taken from {nfp}")
+
+
+def ambiguous_encodings(repo, rep, prims):
+    """R4.15: a value whose fill-time normalisation branches on a stored tag (Bag: `range` - strings are kept for "S", numbers go
+    through floatOrNan otherwise) is written by one encoder for all tags; the JSON strings 'nan'/'inf'/'-inf' are therefore ambiguous
+    (a category label, or an encoded number).  The reader's decoding of such a value must be decided under the document's tag."""
+    r15 = rep.rule("R4.15", "the string encodings 'nan'/'inf'/'-inf' of a tagged value are decoded under the tag that disambiguates them", floor=1)
+    for c in prims:
+        upd = [f for f in c.methods.values() if f.name in ("_update", "fill")]
+        tag = None
+        for f in upd:
+            sn = f.params[0]
+            for n in walk_local_stmt(f.node):
+                if isinstance(n, ast.If) and isinstance(n.test, ast.Compare) and isinstance(n.test.left, ast.Attribute) and isinstance(n.test.left.value, ast.Name) \
+                        and n.test.left.value.id == sn and len(n.test.ops) == 1 and isinstance(n.test.ops[0], ast.Eq) and isinstance(n.test.comparators[0], ast.Constant) \
+                        and isinstance(n.test.comparators[0].value, str):
+                    keeps_str = any(isinstance(x, ast.Call) and isinstance(x.func, ast.Name) and x.func.id == "isinstance" and "basestring" in ast.unparse(x) or
+                                    (isinstance(x, ast.Call) and isinstance(x.func, ast.Name) and x.func.id == "isinstance" and "str" in ast.unparse(x.args[1]))
+                                    for b in n.body for x in ast.walk(b))
+                    converts = any(isinstance(x, ast.Call) and (call_name(x) or "").split(".")[-1] in ("floatOrNan", "float") for b in n.orelse for x in ast.walk(b))
+                    if keeps_str and converts:
+                        tag = n.test.left.attr
+        if tag is None:
+            continue
+        rd = repo.own_method(c, "fromJsonFragment")
+        rep.analysed_functions.add(rd.construct)
+        g = cfgmod.build(rd.node)
+        tcd = g.transitive_control_deps()
+        carriers = set()
+        for n in walk_local_stmt(rd.node):
+            if isinstance(n, ast.Assign) and any(isinstance(x, ast.Subscript) and isinstance(x.slice, ast.Constant) and x.slice.value == tag for x in ast.walk(n.value)):
+                carriers |= {t.id for t in n.targets if isinstance(t, ast.Name)}
+
+        def is_tag(x):
+            while isinstance(x, ast.Subscript) and not (isinstance(x.slice, ast.Constant) and x.slice.value == tag):
+                x = x.value         # range[0]
+            return (isinstance(x, ast.Subscript) and isinstance(x.slice, ast.Constant) and x.slice.value == tag) or (isinstance(x, ast.Name) and x.id in carriers)
+
+        def mentions_tag(e):
+            """a test of the tag's VALUE (== / != / in against string constants, startswith), not its mere type validation"""
+            for x in ast.walk(e):
+                if isinstance(x, ast.Compare) and len(x.ops) == 1 and isinstance(x.ops[0], (ast.Eq, ast.NotEq, ast.In, ast.NotIn)):
+                    sides = [x.left, x.comparators[0]]
+                    if any(is_tag(sd) for sd in sides) and any(isinstance(sd, (ast.Constant, ast.Tuple, ast.List, ast.Set)) for sd in sides):
+                        return True
+                if isinstance(x, ast.Call) and isinstance(x.func, ast.Attribute) and x.func.attr in ("startswith", "endswith") and is_tag(x.func.value):
+                    return True
+            return False
+
+        def is_enc_test(e):
+            """`<elem>["v"] in ("nan", "inf", "-inf")` on a scalar element value (not the weights)"""
+            for x in ast.walk(e):
+                if isinstance(x, ast.Compare) and len(x.ops) == 1 and isinstance(x.ops[0], ast.In) and isinstance(x.comparators[0], (ast.Tuple, ast.List, ast.Set)):
+                    vals = [getattr(k, "value", None) for k in x.comparators[0].elts]
+                    if "nan" in vals and isinstance(x.left, ast.Subscript) and isinstance(x.left.slice, ast.Constant) and x.left.slice.value == "v":
+                        return True
+            return False
+
+        n_sites = 0
+        for nd in g.nodes:
+            if nd.kind != "test" or not is_enc_test(nd.ast):
+                continue
+            # only where the accepted value is then converted to a number
+            n_sites += 1
+            ctl = [g.nodes[x[0]] for x in tcd.get(nd.id, set())]
+            ok = mentions_tag(nd.ast) or any(t.ast is not None and isinstance(t.ast, ast.expr) and mentions_tag(t.ast) for t in ctl)
+            r15.ob(ok, f"{c.name}.fromJsonFragment: `{norm(nd.ast)[:60]}` decided under the document's `{tag}`")
+            if not ok:
+                rep.finding("R4.15", rd, nd.stmt, f"`{norm(nd.ast)[:70]}` turns the strings 'nan'/'inf'/'-inf' into numbers whatever the document's `{tag}` says, "
+                            f"while fill keeps strings as they are for `{tag}` == \"S\": a Bag of strings that has seen the label \"nan\" (or \"inf\") reloads with "
+                            f"a float key among its strings - it is not equal to the original and toJson of the reloaded Bag raises TypeError (str vs float in sorted)",
+                            stmt=f"'nan'/'inf' strings decoded without looking at {tag}")
+        if n_sites == 0:
+            raise AnalysisError(f"{c.name}.fromJsonFragment: the decoding test of the tagged values was not found")
+
+
+def factored_name_retained(repo, rep, prims, models):
+    """R4.16: a container whose children come from a template writes the children's common quantity name as `bins:name` taken from the
+    TEMPLATE, i.e. also while it has no children.  The reader hands the key to the child readers only - with no children it goes
+    nowhere - unless it also keeps it in the result (ed() argument or a store on the result)."""
+    r16 = rep.rule("R4.16", "a factored-out child name the writer can emit without children is retained by the reader without children", floor=2)
+    for c in prims:
+        m = models[c.name]
+        if not m.template:
+            continue
+        wf = repo.own_method(c, "toJsonFragment")
+        rd = repo.own_method(c, "fromJsonFragment")
+        sn = wf.params[0]
+        # does the writer derive a ":name" value from the template?
+        from_template = any(isinstance(x, ast.Attribute) and x.attr == "name" and any(
+            isinstance(y, ast.Attribute) and isinstance(y.value, ast.Name) and y.value.id == sn and y.attr == m.template for y in ast.walk(x)) for x in ast.walk(wf.node))
+        keys = sorted({k.value for k in ast.walk(rd.node) if isinstance(k, ast.Constant) and isinstance(k.value, str) and k.value.endswith(":name") and "." not in k.value})
+        if not from_template or not keys:
+            continue
+        rep.analysed_functions.add(rd.construct)
+        def outside_child_readers(e):
+            """nodes of e that are not inside the arguments of a child reader call (what goes there is consumed by the child)"""
+            if isinstance(e, ast.Call) and isinstance(e.func, ast.Attribute) and e.func.attr == "fromJsonFragment":
+                return
+            yield e
+            for ch in ast.iter_child_nodes(e):
+                yield from outside_child_readers(ch)
+
+        for key in keys:
+            carriers = set()
+            changed = True
+            while changed:
+                changed = False
+                for n in walk_local_stmt(rd.node):
+                    if isinstance(n, ast.Assign) and any((isinstance(x, ast.Constant) and x.value == key) or (isinstance(x, ast.Name) and x.id in carriers) for x in outside_child_readers(n.value)):
+                        for t in n.targets:
+                            if isinstance(t, ast.Name) and t.id not in carriers:
+                                carriers.add(t.id)
+                                changed = True
+            kept = None
+            for n in walk_local_stmt(rd.node):
+                if isinstance(n, ast.Call) and isinstance(n.func, ast.Attribute) and n.func.attr == "ed" and any(
+                        isinstance(x, ast.Name) and x.id in carriers for a0 in list(n.args) + [kw.value for kw in n.keywords] for x in ast.walk(a0)):
+                    kept = n
+                if isinstance(n, ast.Assign) and any(isinstance(t, ast.Attribute) and not (isinstance(t.value, ast.Attribute)) for t in n.targets) and any(
+                        isinstance(x, ast.Name) and x.id in carriers for x in ast.walk(n.value)):
+                    kept = n
+            r16.ob(kept is not None, f"{c.name}.fromJsonFragment: `{key}` kept in the result")
+            if kept is None:
+                rep.finding("R4.16", rd, rd.node, f"the writer takes `{key}` from the template `{sn}.{m.template}`, so an EMPTY {c.name} with a named sub-aggregator writes it; the "
+                            f"reader passes it to the child readers only and keeps it nowhere: reloaded while empty, the container has lost the name "
+                            f"and re-serialises without `{key}` (the document is not a fixpoint)", stmt=f"{key} dropped by the reader when there are no children")
+
+
 def run(repo, rep, tier):
     rep.extra["explanation"] = (
         "Agreement analysis between each toJsonFragment (writer) and fromJsonFragment -> ed -> __init__ (reader) of the 19 "
@@ -532,6 +743,10 @@ def run(repo, rep, tier):
                                         f"splatted into `{ast.unparse(n.func)}`, which has the named parameters {named}: a label/category "
                                         f"with one of these names makes fromJson reject (or mis-bind) a document that toJson produced",
                                         stmt=f"**{ast.unparse(kw.value)} into {ast.unparse(n.func)}")
+    type_tags_from_name(repo, rep, prims)
+    name_from_parent_used(repo, rep, prims)
+    ambiguous_encodings(repo, rep, prims)
+    factored_name_retained(repo, rep, prims, build_models(repo))
     registry_rules(repo, rep, r4, prims, reg)
 
 
